@@ -80,6 +80,11 @@ func runC01(w *World, r *Report) {
 	// the -1 "partition dropped" sentinel that lets handlePack skip a message never comes with an error; a collection is
 	// registered for replication atomically, so a second announcement cannot start a second stream (shared with C06/C13)
 	defer r.importRules(runC06, "C01-", map[string]bool{"C06-R4": true})
+	// "minus only messages addressed to a collection or partition that is already dropped on both sides": the dropped
+	// sets are filled only when the drop request was handed over or the catalog says so (C04-R5, C04-R9); a stopped
+	// handler's channel entry is removed so that the next one announces the channel again (C03-R4 clock-field discipline)
+	defer r.importRules(runC04, "C01-", map[string]bool{"C04-R5": true, "C04-R9": true})
+	defer r.importRules(runC03, "C01-", map[string]bool{"C03-R4": true})
 	defer r.importRules(runC13, "C01-", map[string]bool{"C13-R3": true})
 	// tick-only packs carry the stream's checkpoint position: the positions of an output pack are the pack's own copies
 	defer r.importRules(runC02, "C01-", map[string]bool{"C02-R2": true})
